@@ -9,15 +9,17 @@ PROP = dict(
          'position the context is cancelled inside the k-th leaf evaluation for EVERY k from 1 to the size of the search + 1 (searches up '
          'to 2000 leaves in quick, 100000 in thorough; a stride beyond) and the result is compared with the uninterrupted depth-limited run '
          'of the implementation; a subset of the cancelled engines (all iteration boundaries, 1 in 8 of the rest) is asked twice more and '
-         'judged by the exhaustive-negamax / forced-result oracles. evaluations = cases replayed by the extracted model (a few k per '
+         'judged by the exhaustive-negamax / forced-result oracles; at every cancellation point the transposition table must be byte-identical to what it was when the flag was set (ttPut refuses writes). evaluations = cases replayed by the extracted model (3-7 k per '
          'position); the oracle count is input_distribution.cancel_points. Plus cancellations from a concurrent goroutine at random times.',
     assumptions=['no deadline, MaxEvals = 0', 'Seed != 0 (Analyze does not read the clock)',
                  'data-race freedom is not a theorem: supporting evidence only (go build -race driver in the thorough tier)'],
 )
 
 MANIFEST = dict(
-    text="Coq: the engine model Search.v carries the cancellation flag as 'flips inside the k-th leaf evaluation'; cancel_truncates relates "
-         "the cancelled run to the depth-limited uninterrupted run of the same model. The model is replayed against MinimaxAI.Analyze with "
+    text="Coq (proved, no assumptions): on the engine model Search.v, whose cancellation flag flips inside the k-th leaf evaluation, a cancelled "
+         "Analyze that reports depth d returns exactly pv, value, depth and statistics of the uninterrupted call limited to depth d on the same "
+         "engine state (cancel_truncates), d is the deepest such depth (cancel_deepest), and nothing completed means no move "
+         "(cancel_no_move); any k, configuration, table, history. The model is replayed against MinimaxAI.Analyze with "
          "cancellation injected deterministically at the same k (overlay accessor to the engine's flag), and an implementation-vs-"
          "implementation oracle checks EVERY cancellation point of each search against the depth-limited run, then the engine's later answers "
          "against exhaustive negamax.",
